@@ -9,41 +9,44 @@ Open Scope string_scope.
 (** the shipped languages *)
 Definition shipped : list (string * langmap) := langs.
 
-(** custom schemas (type "custom") have no entry in any shipped language map: recorded finding
-    C11/custom-no-message; every other catalogue entry must be fully described *)
-Definition entry_ok_but_custom (m : langmap) (e : string * string * list string) : bool :=
-  String.eqb (fst (fst e)) "custom" || entry_ok m e.
-
-Definition all_ok : bool := forallb (fun lm => forallb (entry_ok_but_custom (snd lm)) catalogue) shipped.
+(** every catalogue entry — every built-in test of every type, the front ends, and schemas made
+    with CustomFunc (type "custom") — is fully described in every shipped language *)
+Definition all_ok : bool := forallb (fun lm => forallb (entry_ok (snd lm)) catalogue) shipped.
 Lemma all_ok_true : all_ok = true.
 Proof. vm_compute. reflexivity. Qed.
 
-Theorem catalogue_ok_partial : forall l m e, In (l, m) shipped -> In e catalogue -> fst (fst e) <> "custom" -> entry_ok m e = true.
+Theorem catalogue_ok : forall l m e, In (l, m) shipped -> In e catalogue -> entry_ok m e = true.
 Proof.
-  intros l m e Hl He Hc. pose proof all_ok_true as A. unfold all_ok in A. rewrite forallb_forall in A.
-  specialize (A (l, m) Hl). cbn [snd] in A. rewrite forallb_forall in A. specialize (A e He).
-  unfold entry_ok_but_custom in A. apply orb_prop in A. destruct A as [A|A]; [|exact A].
-  apply String.eqb_eq in A. contradiction.
+  intros l m e Hl He. pose proof all_ok_true as A. unfold all_ok in A. rewrite forallb_forall in A.
+  specialize (A (l, m) Hl). cbn [snd] in A. rewrite forallb_forall in A. exact (A e He).
 Qed.
 
-Lemma custom_refuted : entry_ok lang_en ("custom", "", []) = false /\ entry_ok lang_es ("custom", "", []) = false.
+(** the catalogue does contain the custom type, and it is described (non-vacuity of the above for it) *)
+Lemma custom_in_catalogue : existsb (fun e => String.eqb (fst (fst e)) "custom") catalogue = true.
+Proof. vm_compute. reflexivity. Qed.
+Lemma custom_described : entry_ok lang_en ("custom", "", []) = true /\ entry_ok lang_es ("custom", "", []) = true.
+Proof. split; vm_compute; reflexivity. Qed.
+
+(** the language maps as they were before the repair had no entry for the custom type: without it
+    a CustomFunc issue had an empty message *)
+Definition without_type (t : string) (m : langmap) : langmap := filter (fun kv => negb (String.eqb (fst kv) t)) m.
+Lemma legacy_custom_refuted : entry_ok (without_type "custom" lang_en) ("custom", "", []) = false
+                              /\ default_format (without_type "custom" lang_en) "custom" "custom" [] "" = "".
 Proof. split; vm_compute; reflexivity. Qed.
 
 (** substitution: with brace-free parameter values no placeholder is left in any message of the catalogue *)
 Definition sample_message (m : langmap) (e : string * string * list string) : string :=
   let '(dtype, code, keys) := e in default_format m dtype code (map (fun k => (k, "V")) keys) "V".
 Definition none_left : bool :=
-  forallb (fun lm => forallb (fun e => String.eqb (fst (fst e)) "custom"
-                                       || match placeholders (sample_message (snd lm) e) with [] => negb (String.eqb (sample_message (snd lm) e) "") | _ => false end)
+  forallb (fun lm => forallb (fun e => match placeholders (sample_message (snd lm) e) with [] => negb (String.eqb (sample_message (snd lm) e) "") | _ => false end)
                              catalogue) shipped.
 Lemma none_left_true : none_left = true.
 Proof. vm_compute. reflexivity. Qed.
-Theorem no_placeholder_left : forall l m e, In (l, m) shipped -> In e catalogue -> fst (fst e) <> "custom" ->
+Theorem no_placeholder_left : forall l m e, In (l, m) shipped -> In e catalogue ->
   placeholders (sample_message m e) = [] /\ sample_message m e <> "".
 Proof.
-  intros l m e Hl He Hc. pose proof none_left_true as A. unfold none_left in A. rewrite forallb_forall in A.
+  intros l m e Hl He. pose proof none_left_true as A. unfold none_left in A. rewrite forallb_forall in A.
   specialize (A (l, m) Hl). cbn [snd] in A. rewrite forallb_forall in A. specialize (A e He).
-  apply orb_prop in A. destruct A as [A|A]; [apply String.eqb_eq in A; contradiction|].
   destruct (placeholders (sample_message m e)); [|discriminate]. split; [reflexivity|].
   intros E. rewrite E in A. discriminate.
 Qed.
